@@ -608,7 +608,12 @@ func symConv(fr *frame, t_dst, t_src types.Type, x value) (value, bool) {
 	case *symv:
 		if b, ok := t_dst.Underlying().(*types.Basic); ok {
 			if b.Kind() == types.String {
-				fr.i.st.unsupported("string(symbolic integer)")
+				// string(rune): assume an ASCII code point (recorded as an assumption of the run)
+				st := fr.i.st
+				ctx := st.ctx
+				w := kindWidth(x.K)
+				st.assumeNoted("a symbolic integer converted to a string is an ASCII code point", ctx.ULt(x.T, ctx.BV(0x80, w)))
+				return mkStr([]value{valueOf(ctx.Extract(x.T, 7, 0), types.Uint8)}), true
 			}
 			return symConvScalar(fr, x, b.Kind()), true
 		}
